@@ -3,6 +3,7 @@ CONSTANTS
  Family = "mid"
  MaxMid = 10
  MaxTiny = 7
+ CarryTail = 1
  CarryLens = {}
 INIT Init
 NEXT Next
